@@ -107,6 +107,61 @@ def enumerate_sites():
     return sites
 
 
+def enumerate_stores():
+    """stores through one variable-index GEP into a local array / array member: (index*scale + offset + store size) must stay inside"""
+    P = wmw.program()
+    sites = []
+    for (un, fn), F in sorted(P.static.items()):
+        src = F.file().replace(build.REPO + '/', '')
+        if not src.startswith('src/'):
+            continue
+        unit = P.units[un]
+        L = None
+        decl = {d['v']: d['var'] for d in F.f.get('declares', [])}
+        ordn = {}
+        k = -1
+        for i in sorted(F.insts.values(), key=lambda x: x['id']):
+            if i['op'] != 'store':
+                continue
+            k += 1
+            o = F.strip_casts(i['ops'][1])
+            if o['k'] != 'i':
+                continue
+            g = F.insts[o['v']]
+            if g['op'] != 'getelementptr' or g.get('off') is None or len(g.get('var') or []) != 1:
+                continue
+            base, off0 = F.addr_of(g['ops'][0])
+            if off0 is None:
+                continue
+            off = off0 + g['off']
+            if base['k'] == 'i' and F.insts[base['v']]['op'] == 'alloca':
+                a = F.insts[base['v']]
+                if a.get('size', -1) <= 0:
+                    continue
+                room, dest = a['size'] - off, decl.get(a['id'], 'local%d' % a['id'])
+            elif base['k'] == 'a':
+                sn = _struct_of(F.f['params'][base['v']]['ty'])
+                if sn is None:
+                    continue
+                if L is None:
+                    L = irf.Layouts(unit)
+                if sn not in L.by_name:
+                    continue
+                fa = L.field_at(sn, off)
+                if fa is None or fa[3]['count'] == 0:
+                    continue
+                room, dest = fa[0] + fa[1] - off, '%s.%s' % (sn, fa[2])
+            else:
+                continue
+            okey = (fn, dest)
+            n = ordn.get(okey, 0)
+            ordn[okey] = n + 1
+            key = '%s:%s:store:%s#%d' % (src, fn, dest, n)
+            sites.append(dict(src=src, fn=fn, callee='<store>', nth=k, key=key, room=room, scale=1, len=None, lenconst=i.get('size', 1), var=g['var'],
+                              line=i.get('line'), dest=dest, un=un))
+    return sites
+
+
 def _opname(F, o):
     if o['k'] == 'a':
         p = F.f['params'][o['v']]
@@ -121,8 +176,9 @@ def decide(site):
     """True if the site is unreachable under `written bytes > room`"""
     U = oblig.funit(site['src'])
     F = U.func(site['fn'])
-    ln, lty = _opname(F, site['len'])
-    hyp = dict(kind='before_call', callee=site['callee'], nth=site['nth'], len=ln, lty=lty, room=site['room'] // site['scale'], var=[])
+    ln, lty = _opname(F, site['len']) if site['len'] is not None else (None, 'i64')
+    hyp = dict(kind='before_call', callee=site['callee'], nth=site['nth'], len=ln, lty=lty, room=site['room'] // site['scale'], var=[],
+               lenconst=site.get('lenconst', 0))
     for (o, sc) in site['var']:
         n, ty = _opname(F, o)
         hyp['var'].append((n, ty, sc))
@@ -139,8 +195,10 @@ def _prebuild(sites, jobs=16):
 
 def check(chk, rule='fixed-buffer-copy-bounded', jobs=16):
     sites = enumerate_sites()
+    nbulk = len(sites)
+    sites += enumerate_stores()
     _prebuild(sites)
-    if len(sites) < 60:
+    if nbulk < 60 or len(sites) - nbulk < 100:
         raise AnalysisBroken('only %d variable-length writes into fixed-size buffers found (expected > 60): the enumeration is broken' % len(sites))
     frozen = json.load(open(TABLE))['sites']
 
@@ -157,7 +215,10 @@ def check(chk, rule='fixed-buffer-copy-bounded', jobs=16):
         if err is not None:
             raise err
         seen.add(s['key'])
-        inst = '%s: %s(%s, .., len) with len > %d bytes left is unreachable' % (s['fn'], s['callee'], s['dest'], s['room'] // s['scale'])
+        if s['callee'] == '<store>':
+            inst = '%s: %s[i] := .. (store #%s) with i beyond the %d bytes left is unreachable' % (s['fn'], s['dest'], s['key'].rsplit('#', 1)[1], s['room'])
+        else:
+            inst = '%s: %s(%s, .., len) with len > %d bytes left is unreachable' % (s['fn'], s['callee'], s['dest'], s['room'] // s['scale'])
         where = '%s:%s' % (s['src'], s['line'])
         if okk:
             chk.ok(rule, inst, where, 'llvm.assume(len > room) before the call makes the site dead')
@@ -179,7 +240,7 @@ def check(chk, rule='fixed-buffer-copy-bounded', jobs=16):
 if __name__ == '__main__':
     # regenerate the table from the current tree (reviewed by hand before committing)
     import sys
-    sites = enumerate_sites()
+    sites = enumerate_sites() + enumerate_stores()
     _prebuild(sites)
     out = {}
     with ThreadPoolExecutor(16) as ex:
